@@ -184,6 +184,11 @@ type VerifRecWAL struct {
 	pendEnd   int64
 	pendOwn   []int
 	pendVotes []*types.Vote
+	// own signed messages (proposal / vote) written but not yet covered by a sync
+	unsyncedOwnSigned []string
+	// OnHandledBeforeDurable is called when the receive routine comes back to the WAL with its NEXT message
+	// while an own signed message it has already handled is still not durable.
+	OnHandledBeforeDurable func(kinds []string)
 	// OnSynced is called after a sync returned, with the kinds and the own votes it made durable.
 	OnSynced func(kinds []string, ownVotes []*types.Vote)
 }
@@ -243,8 +248,24 @@ func (w *VerifRecWAL) note(msg WALMessage) {
 	}
 }
 
+// entry: receiveRoutine writes message k+1 only after it has handled message k; so if an own signed message is
+// still unsynced now, it entered the node's state (from where it is gossiped) before it was durable.
+func (w *VerifRecWAL) entry(msg WALMessage) {
+	if _, isRS := msg.(types.EventDataRoundState); isRS {
+		return // newStep() writes round-state records from inside the handling of a message
+	}
+	if len(w.unsyncedOwnSigned) > 0 && w.OnHandledBeforeDurable != nil {
+		w.OnHandledBeforeDurable(append([]string{}, w.unsyncedOwnSigned...))
+		w.unsyncedOwnSigned = nil
+	}
+}
+
 func (w *VerifRecWAL) Write(msg WALMessage) error {
+	w.entry(msg)
 	w.note(msg)
+	if k := verifMsgKind(msg); k == "own-proposal" || k == "own-vote" {
+		w.unsyncedOwnSigned = append(w.unsyncedOwnSigned, k)
+	}
 	return w.BaseWAL.Write(msg)
 }
 
@@ -264,6 +285,9 @@ func (w *VerifRecWAL) sync(f func() error) error {
 		w.OnSynced(op.WalMsgs, w.pendVotes)
 	}
 	w.unsynced, w.pendEnd, w.pendOwn, w.pendVotes = nil, 0, nil, nil
+	if err == nil {
+		w.unsyncedOwnSigned = nil
+	}
 	if idx >= 0 {
 		b, _ := os.ReadFile(w.Path)
 		w.Rec.Ops[idx].FileAfter = b
@@ -272,6 +296,7 @@ func (w *VerifRecWAL) sync(f func() error) error {
 }
 
 func (w *VerifRecWAL) WriteSync(msg WALMessage) error {
+	w.entry(msg)
 	w.note(msg)
 	return w.sync(func() error { return w.BaseWAL.WriteSync(msg) })
 }
@@ -566,6 +591,17 @@ func VerifFreeRun(c VerifFullConfig, target uint64, deadline time.Duration) (vio
 		mu.Lock()
 		for _, v := range votes {
 			synced[string(v.Signature)] = true
+		}
+		mu.Unlock()
+	}
+	w.OnHandledBeforeDurable = func(kinds []string) {
+		mu.Lock()
+		for _, k := range kinds {
+			t := int32(0)
+			if k == "own-proposal" {
+				t = 32
+			}
+			viol = append(viol, VerifWriteAheadViolation{Type: t, What: "the receive routine handled its " + k + " (it is part of the node's state and gossiped from there) while the message was not yet durable in the WAL"})
 		}
 		mu.Unlock()
 	}
